@@ -25,7 +25,8 @@ def uni(draw, lo, hi):
 
 
 CLASSES = ['generic', 'generic', 'shared_tight', 'heavy_ties', 'zero_capacity',
-           'lower_quotas', 'more_lecturers', 'two_agent', 'two_agent', 'tied_lower_quotas']
+           'lower_quotas', 'more_lecturers', 'two_agent', 'two_agent', 'tied_lower_quotas',
+           'lecturer_ties_only']
 
 
 def _groups(draw, items, tie_pct):
@@ -45,15 +46,16 @@ def instances(draw, sizes, na=None, two_sided=None, cls=None, min_len=1):
     if cls is None:
         cls = draw(st.sampled_from(CLASSES))
     if na is None:
-        na = 2 if cls == 'two_agent' else (3 if cls in ('shared_tight', 'more_lecturers')
+        na = 2 if cls == 'two_agent' else (3 if cls in ('shared_tight', 'more_lecturers',
+                                                         'lecturer_ties_only')
                                            else draw(st.sampled_from([3, 3, 2])))
     n1 = uni(draw, 1, sizes['n1'])
     n2 = uni(draw, min(max(min_len, sizes.get('n2min', 1)), sizes['n2']), sizes['n2'])
-    if cls == 'shared_tight':
+    if cls in ('shared_tight', 'lecturer_ties_only'):
         n2 = max(n2, 2)
         n1 = max(n1, 2)
     if na == 3:
-        if cls == 'shared_tight':
+        if cls in ('shared_tight', 'lecturer_ties_only'):
             n3 = uni(draw, 1, max(1, n2 - 1))
         elif cls == 'more_lecturers':
             n3 = uni(draw, min(n1 + 1, sizes['n3'] + 1), sizes['n3'] + 1)
@@ -69,6 +71,10 @@ def instances(draw, sizes, na=None, two_sided=None, cls=None, min_len=1):
         draw(st.sampled_from([60, 85, 100]))
     t2 = draw(st.sampled_from([0, 0, 30, 60])) if not heavy else \
         draw(st.sampled_from([60, 85, 100]))
+    if cls == 'lecturer_ties_only':
+        # strict first-side lists, a lecturer indifferent between students of his different
+        # projects: stable matchings of different sizes without any tie a project could see
+        t1, t2 = 0, draw(st.sampled_from([60, 85, 100]))
     prefs = []
     for _ in range(n1):
         perm = draw(st.permutations(list(range(1, n2 + 1))))
@@ -87,14 +93,14 @@ def instances(draw, sizes, na=None, two_sided=None, cls=None, min_len=1):
     inst = {'na': na, 'n1': n1, 'n2': n2, 'n3': n3, 'prefs': prefs, 'plq': plq, 'puq': puq}
     if na == 3:
         plec = [uni(draw, 1, n3) for _ in range(n2)]
-        if cls == 'shared_tight':
+        if cls in ('shared_tight', 'lecturer_ties_only'):
             plec[0] = plec[1] = 1   # lecturer 1 certainly offers >= 2 projects
             puq[0] = max(puq[0], 1)
             puq[1] = max(puq[1], 1)
         luq, lt, llq = [], [], []
         for k in range(n3):
             cap = sum(puq[j] for j in range(n2) if plec[j] == k + 1)
-            if cls == 'shared_tight' and k == 0:
+            if cls in ('shared_tight', 'lecturer_ties_only') and k == 0:
                 u = uni(draw, 1, max(1, cap - 1))
             elif zero:
                 u = draw(st.sampled_from([0, 0, 1, 2, cap]))
@@ -110,12 +116,37 @@ def instances(draw, sizes, na=None, two_sided=None, cls=None, min_len=1):
         inst.update(plec=plec, llq=llq, lt=lt, luq=luq)
     else:
         inst.update(plec=list(range(1, n2 + 1)), llq=list(plq), lt=list(puq), luq=list(puq))
+    if cls == 'lecturer_ties_only' and pct(draw) < 70:
+        # the situation in which such a tie matters: lecturer 1 (two projects) has one place,
+        # every project has room, the other lecturers take what comes
+        inst['puq'] = [max(1, u) for u in inst['puq']]
+        inst['plq'] = [0] * n2
+        inst['luq'][0] = 1
+        inst['lt'][0] = min(inst['lt'][0], 1)
+        inst['llq'][0] = 0
+        for k in range(1, n3):
+            inst['luq'][k] = max(inst['luq'][k], sum(inst['puq'][j] for j in range(n2)
+                                                     if inst['plec'][j] == k + 1))
     if two_sided:
         lprefs = []
         for k in range(n3):
             sts = [i + 1 for i in range(n1)
                    if any(inst['plec'][p - 1] == k + 1 for g in prefs[i] for p in g)]
             perm = draw(st.permutations(sts)) if len(sts) > 1 else sts
+            if cls == 'lecturer_ties_only':
+                # tie two students only when they apply for DIFFERENT projects of this
+                # lecturer: no project sees a tie among its own applicants
+                mine = lambda i: set(p for g in prefs[i - 1] for p in g if plec_of(p) == k + 1)
+                plec_of = lambda p: inst['plec'][p - 1]
+                groups = []
+                for x in perm:
+                    if groups and pct(draw) < t2 and \
+                            not any(mine(x) & mine(y) for y in groups[-1]):
+                        groups[-1].append(x)
+                    else:
+                        groups.append([x])
+                lprefs.append(groups)
+                continue
             lprefs.append(_groups(draw, list(perm), t2))
         if extras:
             # a hand-written second-side list may also rank students who did not apply there:
@@ -330,7 +361,7 @@ def instance_labels(inst, opts=None):
 
 # ------------------------------------------------------------------ sparse embedding
 ID_POOL = [1, 2, 3, 9, 10, 11, 12, 13, 19, 20, 21, 22]
-BIG_ID_POOL = [1, 2, 255, 256, 257, 258, 259, 300]
+BIG_ID_POOL = [2, 256, 257, 258, 259, 260, 299, 300]
 
 
 def embed(inst, smap, pmap, lmap=None):
@@ -410,9 +441,10 @@ def embed(inst, smap, pmap, lmap=None):
 def id_maps(draw, inst):
     """Drawn sparse id maps (students, projects, lecturers) for embed()."""
     pools = [ID_POOL, ID_POOL, ID_POOL]
-    if pct(draw) < 30:
-        # one side gets ids beyond CPython's small-int cache (identity vs equality on ints)
-        pools[draw(st.sampled_from([0, 1, 2]))] = BIG_ID_POOL
+    for side in range(3):
+        # ids beyond CPython's small-int cache (identity vs equality on ints), per side
+        if pct(draw) < 22:
+            pools[side] = BIG_ID_POOL
     smap = list(draw(st.permutations(pools[0])))[:inst['n1']]
     pmap = list(draw(st.permutations(pools[1])))[:inst['n2']]
     lmap = list(draw(st.permutations(pools[2])))[:inst['n3']] if inst['na'] == 3 else None
@@ -482,3 +514,110 @@ def crowd_instances(draw, two_sided=True):
     else:
         inst['lprefs'] = None
     return inst
+
+
+@st.composite
+def size_gadget_instances(draw):
+    """Two-sided instances whose stable matchings have DIFFERENT sizes: a tight lecturer /
+    hospital ranks its last admissible applicants in one tie, and some of them (not all) have
+    an outside option they like less.  Who gets the last place decides whether everybody is
+    matched.  The tied students apply for drawn projects of the tight lecturer (the same one
+    or different ones), so the tie may or may not be visible among one project's applicants."""
+    na = draw(st.sampled_from([3, 3, 2]))
+    m = draw(st.sampled_from([1, 2, 2, 3])) if na == 3 else 1     # projects of the tight agent
+    c = draw(st.sampled_from([1, 1, 2]))                          # its capacity
+    ntied = draw(st.sampled_from([2, 2, 3]))
+    n1 = (c - 1) + ntied
+    n2 = m + 1
+    out = n2                                                      # the outside project
+    with_out = [pct(draw) < 50 for _ in range(ntied)]
+    with_out[draw(st.sampled_from(range(ntied)))] = True
+    k = draw(st.sampled_from(range(ntied)))
+    if all(with_out):
+        with_out[k] = False
+    prefs = []
+    for i in range(n1):
+        p = draw(st.sampled_from(range(1, m + 1)))
+        lst = [[p]]
+        if i >= c - 1 and with_out[i - (c - 1)]:
+            lst.append([out])
+        elif i < c - 1 and pct(draw) < 30:
+            lst.append([out])
+        prefs.append(lst)
+    order = list(draw(st.permutations(list(range(1, n1 + 1)))))
+    # relabel students so that numbering carries no information
+    relabel = {old + 1: new for old, new in enumerate(order)}
+    prefs2 = [None] * n1
+    for old in range(n1):
+        prefs2[relabel[old + 1] - 1] = prefs[old]
+    top = [[relabel[i + 1]] for i in range(c - 1)]
+    tied = [relabel[i + 1] for i in range(c - 1, n1)]
+    tight_list = top + [list(draw(st.permutations(tied)))]
+    outs = [i + 1 for i in range(n1) if any(out in g for g in prefs2[i])]
+    out_list = [[x] for x in draw(st.permutations(outs))] if outs else []
+    puq = [draw(st.sampled_from([c, c, n1])) for _ in range(m)] + [n1]
+    inst = {'na': na, 'n1': n1, 'n2': n2, 'prefs': prefs2, 'plq': [0] * n2, 'puq': puq,
+            'cls': 'size_gadget'}
+    if na == 3:
+        inst.update(n3=2, plec=[1] * m + [2], llq=[0, 0], lt=[c, draw(st.sampled_from([0, n1]))],
+                    luq=[c, n1], lprefs=[tight_list, out_list])
+    else:
+        inst['puq'] = [c, n1]
+        inst.update(n3=2, plec=[1, 2], llq=[0, 0], lt=[c, n1], luq=[c, n1],
+                    lprefs=[tight_list, out_list])
+    return inst
+
+
+def load_tradeoff(draw, inst):
+    """In place: projects that are either closed or filled as a block (lower quota = upper
+    quota, meant for -pc; blocks as large as the number of students compete with single
+    places elsewhere) and lecturers whose targets lie anywhere up to a roomy upper quota: the
+    least maximum and the least total load deviation tend to need different matchings."""
+    n1, n2, n3 = inst['n1'], inst['n2'], inst['n3']
+    inst['puq'] = [draw(st.sampled_from([1, 1, max(1, n1 - 1), n1, n1])) for _ in range(n2)]
+    inst['plq'] = [u if pct(draw) < 70 else 0 for u in inst['puq']]
+    inst['luq'] = [draw(st.sampled_from([n1, n1 + 1, n1 + 2])) for _ in range(n3)]
+    inst['lt'] = [draw(st.sampled_from(list(range(0, u + 1)) + [2, 3])) for u in inst['luq']]
+    inst['lt'] = [min(t, u) for t, u in zip(inst['lt'], inst['luq'])]
+    inst['llq'] = [0] * n3
+    inst['cls'] = 'load_tradeoff'
+    return inst
+
+
+@st.composite
+def load_conflict_instances(draw):
+    """SPA instances (meant for -pc) in which the least MAXIMUM and the least TOTAL lecturer
+    load deviation are reached by different matchings: a project that is either closed or
+    filled by a block of b students (lecturer 1, target b) competes for one of those students
+    with a single place at lecturer 2, whose target t2 > b can never be met.  Filling the
+    block gives deviations (0, t2); taking the single place gives (b, t2 - 1): smaller
+    maximum, larger total.  Further students, projects and lecturers are drawn around it."""
+    b = draw(st.sampled_from([2, 2, 3]))
+    t2 = b + draw(st.sampled_from([1, 1, 2]))
+    extra_s = draw(st.sampled_from([0, 0, 1]))
+    extra_p = draw(st.sampled_from([0, 0, 1]))
+    n1, n2, n3 = b + extra_s, 2 + extra_p, 2 + extra_p
+    order = list(draw(st.permutations([1, 2])))
+    block, single = order[0], order[1]              # project numbers of the two roles
+    prefs = []
+    for i in range(b):
+        lst = [[block]]
+        if i == 0:
+            lst = [[block], [single]] if draw(st.booleans()) else [[single], [block]]
+        prefs.append(lst)
+    for _ in range(extra_s):
+        prefs.append([[3]] if extra_p and draw(st.booleans()) else [[block]])
+    puq, plq, plec = [0] * n2, [0] * n2, [0] * n2
+    puq[block - 1], plq[block - 1], plec[block - 1] = b, b, 1
+    puq[single - 1], plq[single - 1], plec[single - 1] = 1, draw(st.sampled_from([0, 1])), 2
+    luq, lt, llq = [b + extra_s, t2 + 1], [b, t2], [0, 0]
+    if extra_p:
+        puq[2], plq[2], plec[2] = 1, 0, 3
+        luq.append(1)
+        lt.append(draw(st.sampled_from([0, 1])))
+        llq.append(0)
+    perm = list(draw(st.permutations(list(range(n1)))))
+    prefs = [prefs[k] for k in perm]
+    return {'na': 3, 'n1': n1, 'n2': n2, 'n3': n3, 'prefs': prefs, 'plq': plq, 'puq': puq,
+            'plec': plec, 'llq': llq, 'lt': lt, 'luq': luq, 'lprefs': None,
+            'cls': 'load_conflict'}
